@@ -1,10 +1,177 @@
-(* C18_GenLink: the length test translated from the source (Gen_C18, regenerated on every
-   check) is the one of the hand model. *)
-From Coq Require Import List ZArith Bool.
+(* C18_GenLink: the comparisons, assertions and the offset / length arguments of the decoders
+   and encoders as translated from the clang AST of the current sources (Gen_C18, regenerated on
+   every check by lib/gen_C18.py) are the ones the hand models use.  Sizes are naturals embedded
+   in Z, a pointer is an address P plus an offset, *(p) is [deref p].  Editing an operator or an
+   operand in ProtobufCodecLite.cc / HttpContext.cc / HttpServer.cc / HttpResponse.cc makes one of
+   these lemmas false: a proof obligation breaks directly. *)
+From Coq Require Import List ZArith Lia Bool Arith NArith.
 From Coq.Strings Require Import Byte.
-From Muduo Require Import Gen_Consts Gen_C18 C18_Model.
+From Muduo Require Import Base_Bytes Gen_Consts Gen_C18 C10_Model C18_Model C18_EncModel C18_HttpSrvModel.
+Import ListNotations.
 Local Open Scope Z_scope.
+Local Notation Zn := Z.of_nat.
+
+Ltac zb :=
+  repeat match goal with
+  | |- context [Z.geb ?a ?b] => rewrite (Z.geb_leb a b)
+  | |- context [Z.gtb ?a ?b] => rewrite (Z.gtb_ltb a b)
+  | |- context [Z.ltb ?a ?b] => destruct (Z.ltb_spec a b)
+  | |- context [Z.leb ?a ?b] => destruct (Z.leb_spec a b)
+  | |- context [Z.eqb ?a ?b] => destruct (Z.eqb_spec a b)
+  | |- context [Nat.ltb ?a ?b] => destruct (Nat.ltb_spec a b)
+  | |- context [Nat.leb ?a ?b] => destruct (Nat.leb_spec a b)
+  | |- context [Nat.eqb ?a ?b] => destruct (Nat.eqb_spec a b)
+  end; cbn [andb orb negb]; try reflexivity; try lia.
 
 Lemma gen_length_test : forall (tag : list byte) (len : Z),
   Gen_C18.onMessage_length_bad len kMaxMessageLen (kMinMessageLen tag) = length_bad tag len.
 Proof. intros tag len. reflexivity. Qed.
+
+(* ---- ProtobufCodecLite::onMessage ------------------------------------------------------------ *)
+Lemma gen_onMessage : forall (tag b : list byte) (len P e : Z),
+  onMessage_while0 kHeaderLen (kMinMessageLen tag) (Zn (length b))
+    = (Zn (length b) >=? kMinMessageLen tag + kHeaderLen) /\
+  (onMessage_cmp0 kMaxMessageLen len || onMessage_cmp1 (kMinMessageLen tag) len)%bool = length_bad tag len /\
+  onMessage_if0 kMaxMessageLen (kMinMessageLen tag) len = length_bad tag len /\
+  onMessage_cmp2 kHeaderLen len (Zn (length b)) = (Zn (length b) >=? kHeaderLen + len) /\
+  onMessage_if1 kHeaderLen len (Zn (length b)) = (Zn (length b) >=? kHeaderLen + len) /\
+  onMessage_call1_parse_arg0 kHeaderLen P - P = kHeaderLen /\
+  onMessage_call1_parse_arg1 len = len /\
+  onMessage_call0_retrieve kHeaderLen len = kHeaderLen + len /\
+  onMessage_call2_retrieve kHeaderLen len = kHeaderLen + len /\
+  onMessage_let_len len = len /\
+  onMessage_cmp3 e Gen_Consts.ProtobufCodecLite_kNoError = (e =? 0).
+Proof.
+  intros. unfold onMessage_while0, onMessage_cmp0, onMessage_cmp1, onMessage_if0, onMessage_cmp2, onMessage_if1,
+    onMessage_call1_parse_arg0, onMessage_call1_parse_arg1, onMessage_call0_retrieve, onMessage_call2_retrieve,
+    onMessage_let_len, onMessage_cmp3, length_bad.
+  repeat split; try reflexivity; try lia.
+Qed.
+
+(* ---- parse / validateChecksum: buf = P + off ------------------------------------------------- *)
+Lemma gen_parse : forall (tag : list byte) (P off len a b m : Z),
+  let buf := P + off in
+  parse_call0_validateChecksum_arg0 buf = buf /\ parse_call0_validateChecksum_arg1 len = len /\
+  parse_cmp0 m = (m =? 0) /\ parse_if1 m = (m =? 0) /\
+  parse_call1_memcmp_arg0 buf = buf /\
+  parse_let_data buf (Zn (length tag)) - P = off + Zn (length tag) /\
+  parse_let_dataLen kChecksumLen len (Zn (length tag)) = len - kChecksumLen - Zn (length tag) /\
+  validateChecksum_call0_asInt32 buf kChecksumLen len - P = off + len - kChecksumLen /\
+  validateChecksum_call1_checksum_arg0 buf = buf /\
+  validateChecksum_call1_checksum_arg1 kChecksumLen len = len - kChecksumLen /\
+  validateChecksum_cmp0 a b = (a =? b).
+Proof.
+  intros. unfold buf, parse_call0_validateChecksum_arg0, parse_call0_validateChecksum_arg1, parse_cmp0, parse_if1,
+    parse_call1_memcmp_arg0, parse_let_data, parse_let_dataLen, validateChecksum_call0_asInt32,
+    validateChecksum_call1_checksum_arg0, validateChecksum_call1_checksum_arg1, validateChecksum_cmp0.
+  repeat split; try reflexivity; lia.
+Qed.
+
+(* ---- fillEmptyBuffer / serializeToBuffer ------------------------------------------------------ *)
+Lemma gen_encoder : forall (tag : list byte) (b : buf) (n r : nat) (P : Z),
+  fillEmptyBuffer_assert0 (Zn (readableBytes b)) = (readableBytes b =? 0)%nat /\
+  fillEmptyBuffer_assert1 (Zn n) kChecksumLen (Zn r) (Zn (length tag)) = (r =? length tag + n + cks_len)%nat /\
+  fillEmptyBuffer_call0_checksum_arg1 (Zn r) = Zn r /\
+  fillEmptyBuffer_call2_prepend_arg1 = Zn hdr_len /\
+  serializeToBuffer_call0_ensureWritableBytes (Zn n) kChecksumLen = Zn (n + cks_len) /\
+  serializeToBuffer_call1_hasWritten (Zn n) = Zn n /\
+  serializeToBuffer_cmp0 (Zn n) (P + Zn n) P = false.
+Proof.
+  intros. unfold fillEmptyBuffer_assert0, fillEmptyBuffer_assert1, fillEmptyBuffer_call0_checksum_arg1,
+    fillEmptyBuffer_call2_prepend_arg1, serializeToBuffer_call0_ensureWritableBytes,
+    serializeToBuffer_call1_hasWritten, serializeToBuffer_cmp0.
+  change kChecksumLen with 4. change cks_len with 4%nat. change hdr_len with 4%nat.
+  repeat split; zb.
+Qed.
+
+(* ---- HttpContext::processRequestLine: std::find returns `last` when nothing is found ----------- *)
+Definition idx (c : byte) (l : list byte) : nat :=
+  match find_byte c l with Some i => i | None => length l end.
+
+Lemma find_byte_lt c : forall l i, find_byte c l = Some i -> (i < length l)%nat.
+Proof.
+  induction l as [|x t IH]; intros i H; [discriminate H|].
+  cbn [find_byte] in H. destruct (Byte.eqb x c); [injection H as <-; cbn; lia|].
+  destruct (find_byte c t) as [j|]; [|discriminate H]. injection H as <-.
+  specialize (IH j eq_refl). cbn [length]. lia.
+Qed.
+
+Definition deref_of (P : Z) (l : list byte) : Z -> Z := fun a => Z_of_byte (nth (Z.to_nat (a - P)) l x00).
+
+Lemma byte_code_eqb (a c : byte) : (Z_of_byte a =? Z_of_byte c) = Byte.eqb a c.
+Proof.
+  destruct (Byte.eqb a c) eqn:E.
+  - apply Byte.byte_dec_bl in E. subst. apply Z.eqb_refl.
+  - apply Z.eqb_neq. intros H. assert (a = c).
+    { rewrite <- (byte_of_Z_of_byte a), <- (byte_of_Z_of_byte c), H. reflexivity. }
+    subst. rewrite (Byte.byte_dec_lb eq_refl) in E. discriminate.
+Qed.
+
+Lemma gen_processRequestLine : forall (line target ver : list byte) (P : Z),
+  processRequestLine_cmp0 (P + Zn (length line)) (P + Zn (idx SP line))
+    = (match find_byte SP line with Some _ => true | None => false end) /\
+  processRequestLine_cmp1 (P + Zn (length line)) (P + Zn (idx SP line))
+    = (match find_byte SP line with Some _ => true | None => false end) /\
+  processRequestLine_cmp2 (P + Zn (idx QMARK target)) (P + Zn (length target))
+    = (match find_byte QMARK target with Some _ => true | None => false end) /\
+  processRequestLine_cmp3 (P + Zn (length ver)) P = (length ver =? 8)%nat /\
+  ((1 <= length ver)%nat ->
+     processRequestLine_cmp4 (deref_of P ver) (P + Zn (length ver)) = Byte.eqb (nth (length ver - 1) ver x00) x31 /\
+     processRequestLine_cmp5 (deref_of P ver) (P + Zn (length ver)) = Byte.eqb (nth (length ver - 1) ver x00) x30).
+Proof.
+  intros. unfold processRequestLine_cmp0, processRequestLine_cmp1, processRequestLine_cmp2,
+    processRequestLine_cmp3, processRequestLine_cmp4, processRequestLine_cmp5, idx, deref_of.
+  repeat split.
+  - destruct (find_byte SP line) as [i|] eqn:E; [apply find_byte_lt in E|]; zb.
+  - destruct (find_byte SP line) as [i|] eqn:E; [apply find_byte_lt in E|]; zb.
+  - destruct (find_byte QMARK target) as [i|] eqn:E; [apply find_byte_lt in E|]; zb.
+  - zb.
+  - replace (Z.to_nat (P + Zn (length ver) - 1 - P)) with (length ver - 1)%nat by lia.
+    change 49 with (Z_of_byte x31). apply byte_code_eqb.
+  - replace (Z.to_nat (P + Zn (length ver) - 1 - P)) with (length ver - 1)%nat by lia.
+    change 48 with (Z_of_byte x30). apply byte_code_eqb.
+Qed.
+
+(* ---- HttpContext::parseRequest ------------------------------------------------------------------ *)
+Definition state_code (s : hstate) : Z :=
+  match s with
+  | kExpectRequestLine => Gen_Consts.HttpContext_kExpectRequestLine
+  | kExpectHeaders => Gen_Consts.HttpContext_kExpectHeaders
+  | kExpectBody => Gen_Consts.HttpContext_kExpectBody
+  | kGotAll => Gen_Consts.HttpContext_kGotAll
+  end.
+
+Lemma gen_parseRequest : forall (s : hstate) (line : list byte) (i : nat) (P : Z),
+  parseRequest_cmp0 Gen_Consts.HttpContext_kExpectRequestLine (state_code s)
+    = (match s with kExpectRequestLine => true | _ => false end) /\
+  parseRequest_cmp1 Gen_Consts.HttpContext_kExpectHeaders (state_code s)
+    = (match s with kExpectHeaders => true | _ => false end) /\
+  parseRequest_cmp3 Gen_Consts.HttpContext_kExpectBody (state_code s)
+    = (match s with kExpectBody => true | _ => false end) /\
+  parseRequest_cmp2 (P + Zn (idx COLON line)) (P + Zn (length line))
+    = (match find_byte COLON line with Some _ => true | None => false end) /\
+  parseRequest_call0_retrieveUntil (P + Zn i) - P = Zn (i + 2) /\
+  parseRequest_call1_retrieveUntil (P + Zn i) - P = Zn (i + 2).
+Proof.
+  intros. unfold parseRequest_cmp0, parseRequest_cmp1, parseRequest_cmp3, parseRequest_cmp2,
+    parseRequest_call0_retrieveUntil, parseRequest_call1_retrieveUntil, idx.
+  repeat split; try (destruct s; reflexivity); try lia.
+  destruct (find_byte COLON line) as [k|] eqn:E; [apply find_byte_lt in E|]; zb.
+Qed.
+
+(* ---- HttpServer::onMessage / onRequest, HttpResponse::appendToBuffer ------------------------------- *)
+Definition version_code (v : version) : Z :=
+  match v with
+  | kUnknown => Gen_Consts.HttpRequest_kUnknown
+  | kHttp10 => Gen_Consts.HttpRequest_kHttp10
+  | kHttp11 => Gen_Consts.HttpRequest_kHttp11
+  end.
+
+Lemma gen_http_server : forall (ok g c : bool) (v : version),
+  HttpServer_onMessage_if0 ok = negb ok /\ HttpServer_onMessage_if1 g = g /\
+  HttpServer_onRequest_cmp0 Gen_Consts.HttpRequest_kHttp10 (version_code v) = is_http10 v /\
+  appendToBuffer_if0 c = c.
+Proof.
+  intros. unfold HttpServer_onMessage_if0, HttpServer_onMessage_if1, HttpServer_onRequest_cmp0, appendToBuffer_if0.
+  repeat split; destruct v; reflexivity.
+Qed.
